@@ -54,7 +54,10 @@ Lemma ds_step_sound (s : ds) (op : iop) : Forall res_sound (snd (ds_step s op)).
 Proof.
   destruct op; cbn; try constructor.
   - pose proof (frame_step_sound s id) as H. destruct (frame_step s id) as [s' r]. cbn in *. constructor; [exact H|constructor].
-  - destruct (get_dd D s) as [s1 o]. apply oneshot_loop_sound.
+  - destruct (ds_uses D s).
+    + destruct (get_dd D s) as [s1 o]. apply oneshot_loop_sound.
+    + pose proof (oneshot_loop_sound ids s (ds_dict D s)) as H. destruct (oneshot_loop s (ds_dict D s) ids) as [s1 l]. exact H.
+    + destruct (get_dd D s) as [s1 o]. apply oneshot_loop_sound.
 Qed.
 
 Theorem accept_sound (ops : list iop) : forall s : ds, Forall res_sound (snd (ds_run s ops)).
@@ -144,7 +147,11 @@ Proof.
     + cbn [fst]. match goal with |- context [if ?c then _ else _] => destruct c end; cbn [with_dict ds_set]; rewrite Hsel; cbn; rewrite Hsel; exact Hu.
     + destruct (get_dd D (select s id)) as [s2 o]. cbn in *. rewrite Hsel. cbn. rewrite Hg, Hsel. exact Hu.
   - exact Hu.
-  - pose proof (Hget s) as Hg. destruct (get_dd D s) as [s1 o]. cbn in *. rewrite Hloop, Hg. exact Hu.
+  - pose proof (Hget s) as Hg. destruct (ds_uses D s) eqn:Eu.
+    + destruct (get_dd D s) as [s1 o]. cbn in *. rewrite Hloop, Hg. exact Hu.
+    + pose proof (Hloop ids s (ds_dict D s)) as Hl. destruct (oneshot_loop s (ds_dict D s) ids) as [s1 l]. cbn in *.
+      destruct (all_acc D l); cbn; rewrite Hl; exact Hu.
+    + destruct (get_dd D s) as [s1 o]. cbn in *. rewrite Hloop, Hg. exact Hu.
 Qed.
 
 Theorem reachable_uniq (ops : list iop) : forall s : ds, uniq (ds_set D s) -> uniq (ds_set D (fst (ds_run s ops))).
@@ -219,6 +226,8 @@ Proof.
   destruct (id_ok (id_of (ds_dict D s)) id); [|reflexivity]. cbn [with_loaded ds_dict ds_local]. rewrite Hl. reflexivity.
 Qed.
 
+Definition proj_du (s : ds) : option D * duses * bool := (ds_dict D s, ds_uses D s, ds_local D s).
+
 (* ---------- 4. frame by frame through ZSTD_decompressStream = one ZSTD_decompressDCtx call ---------- *)
 (* hypothesis: no single-use prefix is pending (its documented meaning differs between the two entry points: next frame / whole
    call).  Before fix a891479 a second hypothesis was needed - no used-up prefix has left its pointer behind (dictUses == dont_use
@@ -275,8 +284,7 @@ Theorem stream_eq_oneshot (s : ds) (ids : list N) :
   ds_uses D s <> UseOnce -> ids <> [] ->
   ds_step s (IOneShot D ids) = stream_frames s ids.
 Proof.
-  intros Hn Hne. cbn [DictIdModel.ds_step]. unfold get_dd.
-  destruct (ds_uses D s) eqn:Eu; [| contradiction Hn; reflexivity |].
+  intros Hn Hne. cbn [DictIdModel.ds_step]. destruct (ds_uses D s) eqn:Eu; [| contradiction Hn; reflexivity |]; unfold get_dd; rewrite Eu.
   - rewrite (loop_eq_stream ids (clear_dict D s) None) by (right; cbn; auto).
     destruct ids as [|id r]; [contradiction Hne; reflexivity|].
     cbn [DictIdModel.stream_frames]. rewrite (frame_step_dead s id Eu). reflexivity.
@@ -285,7 +293,41 @@ Qed.
 
 (* a call over no frame at all decodes nothing; it only clears what a used-up prefix left behind *)
 Lemma oneshot_nil (s : ds) : snd (ds_step s (IOneShot D [])) = [].
-Proof. cbn. destruct (get_dd D s). reflexivity. Qed.
+Proof. cbn. destruct (ds_uses D s); [destruct (get_dd D s)| |destruct (get_dd D s)]; reflexivity. Qed.
+
+(* a pending single-use prefix and ONE ZSTD_decompressDCtx call : every frame of the call is decoded from the prefix ; the prefix is
+   used up iff no frame was refused (fix b87b37f : a failed call leaves it pending) *)
+Lemma loop_local (ids : list N) : forall (s : ds) cur, ds_local D s = true ->
+  Forall (fun r : fres D => fst (fst r) = cur) (snd (oneshot_loop s cur ids)) /\
+  proj_du (fst (oneshot_loop s cur ids)) = proj_du s.
+Proof.
+  induction ids as [|id r IH]; intros s cur Hl; [split; [constructor|reflexivity]|].
+  assert (Hs1 : forall t : ds, ds_local D t = true -> select t id = t).
+  { intros t Ht. unfold DictIdModel.select, applies. rewrite Ht. destruct (ds_dict D t); rewrite ?andb_false_r; reflexivity. }
+  cbn [DictIdModel.oneshot_loop].
+  assert (Ecur : match cur with
+                 | Some _ => if set_active D s && applies D s then match set_get (ds_set D s) id with Some f => Some f | None => cur end else cur
+                 | None => cur end = cur).
+  { destruct cur; [|reflexivity]. unfold applies. rewrite Hl. destruct (ds_dict D s); rewrite ?andb_false_r; reflexivity. }
+  rewrite Ecur, (Hs1 (with_loaded D s (id_of cur)) Hl).
+  destruct (id_ok (id_of cur) id).
+  - destruct (IH (with_loaded D s (id_of cur)) cur Hl) as [Hf Hp].
+    destruct (oneshot_loop (with_loaded D s (id_of cur)) cur r) as [s2 l]. cbn in *. split; [constructor; [reflexivity|exact Hf]|exact Hp].
+  - cbn. split; [constructor; [reflexivity|constructor]|reflexivity].
+Qed.
+
+Theorem prefix_oneshot (s : ds) (ids : list N) :
+  ds_uses D s = UseOnce -> ds_local D s = true ->
+  Forall (fun r : fres D => fst (fst r) = ds_dict D s) (snd (ds_step s (IOneShot D ids))) /\
+  ds_dict D (fst (ds_step s (IOneShot D ids))) = ds_dict D s /\
+  ds_uses D (fst (ds_step s (IOneShot D ids))) = (if all_acc D (snd (ds_step s (IOneShot D ids))) then DontUse else UseOnce).
+Proof.
+  intros Hu Hl. cbn [DictIdModel.ds_step]. rewrite Hu.
+  destruct (loop_local ids s (ds_dict D s) Hl) as [Hf Hp].
+  destruct (oneshot_loop s (ds_dict D s) ids) as [s1 l]. cbn [fst snd] in *.
+  unfold proj_du in Hp. injection Hp as Hd Hus Hlo.
+  split; [exact Hf|]. destruct (all_acc D l); cbn [fst with_dict ds_dict ds_uses]; split; congruence.
+Qed.
 
 (* ---------- 5. on frames that name no dictionary the model is the round-2 model (DictUseModel.v) ---------- *)
 Definition erase (op : iop) : dop D :=
@@ -305,17 +347,18 @@ Proof.
 Qed.
 
 Lemma loop_zero (ids : list N) : Forall (fun id => id = 0) ids -> forall (s : ds) cur,
-  proj (fst (oneshot_loop s cur ids)) = proj s /\ dicts (snd (oneshot_loop s cur ids)) = repeat cur (length ids).
+  proj (fst (oneshot_loop s cur ids)) = proj s /\ dicts (snd (oneshot_loop s cur ids)) = repeat cur (length ids) /\
+  all_acc D (snd (oneshot_loop s cur ids)) = true.
 Proof.
-  induction 1 as [|id r Hid _ IH]; intros s cur; [split; reflexivity|]. subst id.
+  induction 1 as [|id r Hid _ IH]; intros s cur; [repeat split; reflexivity|]. subst id.
   cbn [DictIdModel.oneshot_loop].
   assert (Ecur : match cur with
                  | Some _ => if set_active D s && applies D s then match set_get (ds_set D s) 0 with Some f => Some f | None => cur end else cur
                  | None => cur end = cur).
   { destruct cur; [|reflexivity]. destruct (set_active D s && applies D s); reflexivity. }
   rewrite Ecur. unfold id_ok at 1. cbn [N.eqb orb]. rewrite select_zero.
-  destruct (IH (with_loaded D s (id_of cur)) cur) as [Hp Hl].
-  destruct (oneshot_loop (with_loaded D s (id_of cur)) cur r) as [s2 l]. cbn in *. split; [exact Hp|]. f_equal. exact Hl.
+  destruct (IH (with_loaded D s (id_of cur)) cur) as (Hp & Hl & Ha).
+  destruct (oneshot_loop (with_loaded D s (id_of cur)) cur r) as [s2 l]. cbn in *. split; [exact Hp|]. split; [f_equal; exact Hl|exact Ha].
 Qed.
 
 Lemma step_erase (s : ds) (op : iop) : names_none op ->
@@ -334,8 +377,11 @@ Proof.
   - split; reflexivity.
   - cbn in Hz. destruct s as [d0 u lo m l ld]. unfold get_dd, get_ddict, proj. cbn [dd_uses dd_dict ds_uses ds_dict].
     destruct u; cbv beta iota;
-      match goal with |- context [oneshot_loop ?a ?b ids] => destruct (loop_zero ids Hz a b) as [Hp Hl]; unfold proj in Hp; rewrite Hp, Hl end;
-      split; reflexivity.
+      match goal with |- context [oneshot_loop ?a ?b ids] => destruct (loop_zero ids Hz a b) as (Hp & Hl & Ha); unfold proj in Hp;
+        destruct (oneshot_loop a b ids) as [s1 l1] end; cbn [fst snd] in *.
+    + rewrite Hl. injection Hp as -> ->. split; reflexivity.
+    + rewrite Ha, Hl. cbn [with_dict ds_dict ds_uses fst snd]. injection Hp as -> _. split; reflexivity.
+    + rewrite Hl. injection Hp as -> ->. split; reflexivity.
 Qed.
 
 Theorem extends_dict_use (ops : list iop) : Forall names_none ops -> forall s : ds,
